@@ -41,7 +41,9 @@ def map_one(ctx, fn, stmts, env):
     env = dict(env)
     store = {}
     env.setdefault("job_states", store)
-    env.setdefault("self", Obj("ops", working_dir="⟦PROJ⟧", accounting_enabled=True, **{"__class__": fn.cls} if fn.cls is not None else {}))
+    if "self" not in env:
+        from .evalhelpers import make_instance
+        env["self"] = make_instance(ctx, fn.cls, "ops", working_dir="⟦PROJ⟧", accounting_enabled=True) if fn.cls is not None else Obj("ops", working_dir="⟦PROJ⟧", accounting_enabled=True)
     try:
         interp.block(stmts, env, fn.module, 0)
     except (_Continue, _Break, _Return):
@@ -115,7 +117,7 @@ def run(ctx):
         # squeue format <-> parser
         fmt = sep = None
         for c in _calls(fn.node):
-            if isinstance(c.func, (ast.Name, ast.Attribute)) and idx.canon(c.func, fn.module) == "gwf.backends.utils.call":
+            if isinstance(c.func, (ast.Name, ast.Attribute)) and (idx.canon(c.func, fn.module) == "gwf.backends.utils.call" or idx.canon(c.func, fn.module) in idx.command_runners()):
                 for a in c.args:
                     if isinstance(a, ast.Constant) and isinstance(a.value, str) and a.value.startswith("--format="):
                         fmt = a.value[len("--format="):]
@@ -168,7 +170,7 @@ def run(ctx):
 
         def is_bjobs_assign(st):
             return isinstance(st, ast.Assign) and isinstance(st.targets[0], ast.Name) and any(
-                isinstance(c.func, (ast.Name, ast.Attribute)) and idx.canon(c.func, fn3.module) == "gwf.backends.utils.call" for c in _calls(st.value))
+                isinstance(c.func, (ast.Name, ast.Attribute)) and (idx.canon(c.func, fn3.module) == "gwf.backends.utils.call" or idx.canon(c.func, fn3.module) in idx.command_runners()) for c in _calls(st.value))
 
         def bind_lsf(code, st):
             return {st.targets[0].id: code, "job_id": "4242", "tracked_jobs": ["4242"]}
